@@ -145,7 +145,10 @@ Judge(e) ==
              /\ (cln.snap # <<>> => Chk(P_CleanSwap(cln.b, segs[Last(cln.snap)].base), "P", e, "X05_CleanRemoves"))
         ELSE Chk(P_CleanStep, "P", e, "X05_CleanStep")
   /\ (e.a = "CrashImage") => Chk(obs'.err = "" /\ P_CrashImage(cln.b), "P", e, "X05_DiskNoHole")
-  /\ (e.a = "RdNext") => Chk(P_RdNext(e.args.r), "P", e, "X05_Reader")
+  /\ (e.a = "RdNext") =>
+        /\ Chk(P_RdClass(e.args.r) /\ P_RdContent(e.args.r) /\ P_RdOrder(e.args.r) /\ P_RdQuiet(e.args.r), "P", e, "X05_Reader")
+        /\ Chk(P_RdCommitted(e.args.r), "P", e,
+               IF HWBelowStart THEN "X05_ReaderCommitted:hw-below-log-start" ELSE "X05_ReaderCommitted")
   /\ (e.a = "SetHW") => Chk(P_SetHW(e.args.h), "P", e, "X05_SetHW")
   /\ (e.a = "NewEpoch") => Chk(P_NewEpoch, "P", e, "X05_NewEpoch")
 
